@@ -27,6 +27,9 @@ class TDFoersterRelaxationTensor(FoersterRelaxationTensor, TimeDependent):
         
     def initialize(self):
         
+        # the data calculated below are not secular, whatever was done
+        # to the data they replace
+        self.is_secular = False
         tt = self.SystemBathInteraction.TimeAxis.data
         Nt = len(tt)
         #
